@@ -1084,6 +1084,12 @@ theorem RelF.of_same {m : Nat → Nat} {s s' : St} {rs rs' : Ref.St} {env : Nat}
   exact hfc.transfer rs.frames.length (fun i _ => by rw [hfl]) (fun i fr hf => ⟨fr, hf, rfl⟩) hk (Nat.le_of_eq h.len) (by rw [hsc]; exact Nat.le_refl _)
     (fun e he => Nat.lt_trans (hc.k_lt e he) hc.lt) (by rw [hfl])
 
+/-- the state seen as running function `f` (inside a Go builtin the relation is stated for the function that called it) -/
+def _root_.ZygoVerif.VM.St.withCur (s : St) (f : Nat) : St := { s with curfunc := f }
+
+theorem withCur_self {s : St} {f : Nat} (h : s.curfunc = f) : s.withCur f = s := by
+  subst h; rfl
+
 theorem RelF.jmp {m s rs env} (h : RelF m s rs env) (p : Int) (d : List (Option Val)) : RelF m (s.jmp p d) rs env :=
   h.of_same rfl rfl rfl rfl rfl rfl h.heap h.trace h.hok
 
